@@ -18,6 +18,9 @@ if "known_findings.json" in [l[3:] for l in st.splitlines() if l.startswith("UU"
     json.dump(ours, open("known_findings.json", "w"), indent=1)
 for p in ("MANIFEST.json", "lean/Verif.lean", "lean/Verif/Driver.lean", "seeded/RESULTS.json"):
     subprocess.run(["git", "checkout", "--ours", p], capture_output=True)
-subprocess.run(["python3", "tools/gen_index.py"]); subprocess.run(["python3", "tools/gen_manifest.py"])
+for l in st.splitlines():
+    if l[:2] in ("UU", "AA") and l[3:].startswith("evidence/"):  # rewritten by the next run anyway
+        subprocess.run(["git", "checkout", "--ours", l[3:]], capture_output=True); subprocess.run(["git", "add", l[3:]])
+subprocess.run(["python3", "tools/gen_index.py"], capture_output=True); subprocess.run(["python3", "tools/gen_manifest.py"], capture_output=True)
 subprocess.run(["git", "add", "known_findings.json", "MANIFEST.json", "lean/Verif.lean", "lean/Verif/Driver.lean", "seeded/RESULTS.json"])
 print(subprocess.run(["git", "status", "--short"], capture_output=True, text=True).stdout)
